@@ -42,6 +42,9 @@ func genM3Idents(r *mon.Rand, n int) []m3Ident {
 	for i := range names {
 		names[i] = "n" + strconv.Itoa(i) + genBytes(r, 30)
 	}
+	if r.Chance(1, 3) {
+		names[0] = "" // the empty metric name is a name like any other
+	}
 	tagsets := make([]map[string]string, 1+n/2)
 	for i := range tagsets {
 		tagsets[i] = genM3Tags(r)
@@ -166,7 +169,11 @@ func c13Life(c *mon.Ctx, r *mon.Rand) {
 	}
 	opts := m3.Options{Service: "svc", Env: "test", Protocol: proto, MaxQueueSize: []int{1, 2, 16, 4096, 0}[r.Intn(5)]}
 	common := map[string]string{}
-	for i := 0; i < r.Intn(4); i++ {
+	nCommonTags := r.Intn(4)
+	if r.Chance(1, 5) {
+		nCommonTags = r.Range(8, 14)
+	}
+	for i := 0; i < nCommonTags; i++ {
 		common["ct"+strconv.Itoa(i)] = genBytes(r, 16)
 	}
 	if r.Chance(1, 4) {
